@@ -75,6 +75,12 @@ def body(ctx):
     for n_ in (4080, 4088, 4089, 4090, 4095, 4096, 4097, 5000, 70000):
         fam.append(dict(seed=ctx.seed + 700 + n_, maxdata=1024 * 1024, rid='plus', frag='whole',
                         ops=[dict(api=('shell', 'exec_out', 'streaming_shell')[n_ % 3], decode=False, cmd='x' * n_, chunks=[b'ok'.hex()])]))
+    # a pushed directory with a sub-directory in it; a peer that announces more than 1 MiB and a push that fills it
+    for names in ([['a.txt', 10], ['m/', 0], ['z.bin', 500]], [['a', 5], ['b', 6], ['zz/', 0]], [['0/', 0], ['b', 10]]):
+        fam.append(dict(seed=ctx.seed + 800 + len(fam), maxdata=4096, rid='plus', frag='whole',
+                        ops=[dict(api='push', src='dir', files=names, cwd='elsewhere', path='/sdcard/d', mtime=9), dict(api='shell', decode=False, cmd='after', chunks=[b'ok'.hex()])]))
+    for md_, size_ in ((2 * 1024 * 1024, 1500000), (3 * 1024 * 1024, 3200000)):
+        fam.append(dict(seed=ctx.seed + 820 + len(fam), maxdata=md_, rid='plus', frag='whole', ops=[dict(api='push', path='/big', size=size_, src='bytesio', mtime=3)]))
     specs = fam + specs
     corpus = scen.run_corpus(specs)
     traces = [c[3] for c in corpus]
